@@ -36,6 +36,15 @@ func main() {
 		for _, id := range core.AllIDs() {
 			fmt.Println(id)
 		}
+	case "describe": // markdown table of the registered families (used for DESIGN.md §10)
+		fmt.Println("| property | family | scenarios quick / thorough | one child per scenario |")
+		fmt.Println("|---|---|---|---|")
+		for _, id := range core.AllIDs() {
+			p := core.Lookup(id)
+			for _, f := range p.Families {
+				fmt.Printf("| %s | %s | %d / %d | %v |\n", id, f.Name, f.N("quick"), f.N("thorough"), f.Solo)
+			}
+		}
 	default:
 		core.Fatalf("unknown mode %q", os.Args[1])
 	}
